@@ -161,9 +161,12 @@ def run(ctx, chk):
                   sample=str(res) if name.startswith("TypeInt sign=1") else None)
     chk.floor(R2, "track cases", ntr, 30)
     ins = []
-    rf = ctx.rspirv.fn(TRK, "resolve", "TypeTracker")
-    chk.check(R2, [show_stmt(s) for s in rf["body"][1]] == ["self.types.get(&%s).cloned()" % rf["sig"]["params"][1][0]], "resolve=lookup",
-              "resolve is %s" % [show_stmt(s) for s in rf["body"][1]], raw.where("resolve", "TypeTracker"))
+    from . import headerx
+    try:
+        rpb = headerx.tracker_resolve_problem(ctx)
+    except Anchor as ex:
+        rpb = "not analysable: %s" % ex
+    chk.check(R2, rpb is None, "resolve=lookup", "%s" % rpb, raw.where("resolve", "TypeTracker"))
     mutators = set()
     for p, fn in mir.fns.items():
         for b in fn["blocks"]:
